@@ -319,7 +319,7 @@ def run_shard(spec):
 
 def check_floors(counters, evaluations, tier):
     msgs = []
-    for key, frac in (('failure-path-event', 0.25),
+    for key, frac in (('failure-path-event', 0.2),
                       ('hook-false-or-raise', 0.1), ('exec-failure', 0.05)):
         if counters.get(key, 0) < frac * evaluations:
             msgs.append("%s in only %d of %d cases" % (
